@@ -42,9 +42,12 @@ _MAX_SAFE_INTEGER = 2**53
 class _JSONParser:
     """Recursive-descent parser for the JSON grammar producing JavaScript values."""
 
-    def __init__(self, text: str):
+    def __init__(self, text: str, object_prototype=None, array_prototype=None):
         self.text = text
         self.pos = 0
+        # what the objects and arrays of the result inherit from
+        self.object_prototype = object_prototype
+        self.array_prototype = array_prototype
 
     def error(self, message: str) -> JSSyntaxError:
         return JSSyntaxError(f"JSON.parse: {message} at position {self.pos}")
@@ -139,6 +142,7 @@ class _JSONParser:
 
     def parse_array(self) -> JSArray:
         array = JSArray()
+        array._prototype = self.array_prototype
         self.pos += 1  # [
         self.skip_whitespace()
         if self.text.startswith("]", self.pos):
@@ -157,7 +161,7 @@ class _JSONParser:
                 raise self.error("expected ',' or ']' after array element")
 
     def parse_object(self) -> JSObject:
-        obj = JSObject()
+        obj = JSObject(self.object_prototype)
         self.pos += 1  # {
         self.skip_whitespace()
         if self.text.startswith("}", self.pos):
@@ -184,10 +188,13 @@ class _JSONParser:
                 raise self.error("expected ',' or '}' after property value")
 
 
-def json_parse(text: str) -> JSValue:
-    """JSON.parse(text) without reviver: a JavaScript value or JSSyntaxError."""
+def json_parse(text: str, object_prototype=None, array_prototype=None) -> JSValue:
+    """JSON.parse(text) without reviver: a JavaScript value or JSSyntaxError.
+
+    The objects and arrays of the result are linked to the given prototypes
+    (Object.prototype and Array.prototype of the calling context)."""
     try:
-        return _JSONParser(text).parse()
+        return _JSONParser(text, object_prototype, array_prototype).parse()
     except RecursionError:
         raise JSSyntaxError("JSON.parse: structure is nested too deeply") from None
 
